@@ -25,7 +25,7 @@ import struct
 import sys
 import time
 
-from common import Check, CoqError, VERIF, coq_bytes, coq_list, coq_N, coq_nat, mkdata
+from common import Check, CoqError, VERIF, coq_list, coq_nat, mkdata
 
 import tcpcl_drive
 import tcpcl.session
@@ -68,6 +68,19 @@ def data_json(val):
 
 def data_unjson(val):
     return Gen(val[1], val[2]) if isinstance(val, list) else bytes.fromhex(val)
+
+
+def coq_bytes(data):
+    ''' An octet string as a Coq term; long strings as a chain of short
+    [unhex] literals (one long literal costs quadratic time in [be]). '''
+    data = bytes(data)
+    if len(data) == 0:
+        return '(@nil N)'
+    if len(data) <= 8:
+        return '[' + '; '.join(str(b) for b in data) + ']'
+    if len(data) <= 32:
+        return '(unhex %d 0x%s)' % (len(data), data.hex())
+    return '(' + ' ++ '.join('unhex %d 0x%s' % (len(data[i:i + 32]), data[i:i + 32].hex()) for i in range(0, len(data), 32)) + ')'
 
 
 def c_data(val):
@@ -627,7 +640,7 @@ def gen_items(rng, bound, count=None):
 def gen_data(rng, big):
     sizes = [0, 0, 1, 2, 17, 255, 256, 1000]
     if big:
-        sizes = [4096, 10000, 16384, 20001]
+        sizes = [4096, 10000]
     size = rng.choice(sizes)
     if size <= 17:
         return bytes(rng.randrange(256) for _ in range(size))
@@ -719,7 +732,7 @@ def long_streams(chk):
         for kind in kinds:
             frames.append(gen_frame(rng, kind))
         out.append(('long', frames))
-    nbig = 2 if chk.quick() else 8
+    nbig = 1 if chk.quick() else 8
     for _ in range(nbig):
         frames = [(GOOD_CONTACT, []), gen_frame(rng, 'init'), gen_frame(rng, 'seg', big=True), (('ka',), []),
                   gen_frame(rng, 'seg'), (('term', 0, 3), [])]
@@ -847,7 +860,19 @@ class ModelJobs(object):
         self.pool = ThreadPoolExecutor(max_workers=12)
 
     def submit(self, name, terms, func, chunk=250):
-        return self.pool.submit(self.chk.coq_eval, name, ['Model.TcpclMsg'], list(terms), func, chunk, 900, PRELUDE)
+        terms = list(terms)
+        nshards = max(1, -(-len(terms) // chunk))
+        # spread neighbouring (similarly expensive) cases over the shards
+        order = sorted(range(len(terms)), key=lambda idx: (idx % nshards, idx))
+
+        def work():
+            res = self.chk.coq_eval(name, ['Model.TcpclMsg'], [terms[idx] for idx in order], func, chunk, 900, PRELUDE)
+            out = [None] * len(terms)
+            for (idx, val) in zip(order, res):
+                out[idx] = val
+            return out
+
+        return self.pool.submit(work)
 
 
 def frame_json(frame):
@@ -1054,7 +1079,7 @@ def run_framing_long(chk, run, jobs, sizes):
         assert size == len(flat)
         for (ctag, lens) in cuts:
             plan.append((tag, frames, parts, flat, ctag, lens))
-    fut = jobs.submit('long', ['(%s, %s)' % (c_parts(parts), c_lens(lens)) for (_t, _f, parts, _fl, _c, lens) in plan], 'rx_brief', chunk=24)
+    fut = jobs.submit('long', ['(%s, %s)' % (c_parts(parts), c_lens(lens)) for (_t, _f, parts, _fl, _c, lens) in plan], 'rx_brief', chunk=40)
     done = []
     for (tag, frames, parts, flat, ctag, lens) in plan:
         (_f, ends, _s) = spec_stream(flat)
@@ -1102,7 +1127,7 @@ def run_framing_real(chk, run, jobs, sizes):
             if ctag.startswith('two-reads') and rng.random() < 0.5:
                 continue
             plan.append((parts, flat, ctag, lens))
-    fut = jobs.submit('real', ['(%s, %s)' % (c_parts(parts), c_lens(lens)) for (parts, _f, _c, lens) in plan], 'rx_brief', chunk=24)
+    fut = jobs.submit('real', ['(%s, %s)' % (c_parts(parts), c_lens(lens)) for (parts, _f, _c, lens) in plan], 'rx_brief', chunk=36)
     done = []
     for (parts, flat, ctag, lens) in plan:
         (_f, ends, _s) = spec_stream(flat)
@@ -1168,7 +1193,7 @@ def run_malformed(chk, run, jobs, sizes):
             probes.append(('bit-flip', base[:pos] + bytes([base[pos] ^ (1 << rng.randrange(8))]) + base[pos + 1:]))
         else:
             probes.append(('random-octets', bytes(rng.randrange(256) for _ in range(rng.randrange(1, 40)))))
-    fut_probe = jobs.submit('malprobe', [coq_bytes(buf) for (_t, buf) in probes], 'probe_msg', chunk=12)
+    fut_probe = jobs.submit('malprobe', [coq_bytes(buf) for (_t, buf) in probes], 'probe_msg', chunk=24)
     streams = []
     hdr = spec_encode(GOOD_CONTACT)
     streams.append(('stall-unknown-type', hdr + b'\x04' + b'\x09\x05\x00\x03'))
@@ -1184,7 +1209,7 @@ def run_malformed(chk, run, jobs, sizes):
             cut_sets = [[len(stream)], lens_from_points([3, 6, 7, 20, len(stream) - 1], len(stream))]
         for lens in cut_sets:
             plan.append((tag, stream, lens))
-    fut_stream = jobs.submit('malstream', ['(%s, %s)' % (coq_bytes(stream), c_lens(lens)) for (_t, stream, lens) in plan], 'rx_brief', chunk=4)
+    fut_stream = jobs.submit('malstream', ['(%s, %s)' % (coq_bytes(stream), c_lens(lens)) for (_t, stream, lens) in plan], 'rx_brief', chunk=5)
     count = 0
     impl_probe = []
     for (tag, buf) in probes:
